@@ -378,6 +378,7 @@ func (t *Tree) RemoveLeafCountKey(height int64) {
 	defer it.Close()
 
 	var keys [][]byte
+	var hashes [][]byte
 	for it.Rewind(); it.Valid(); it.Next() {
 		value := make([]byte, len(it.Value()))
 		copy(value, it.Value())
@@ -385,10 +386,19 @@ func (t *Tree) RemoveLeafCountKey(height int64) {
 		err := types.Decode(value, pData)
 		if err == nil {
 			keys = append(keys, pData.Key)
+			hash := make([]byte, len(it.Key()))
+			copy(hash, it.Key())
+			hashes = append(hashes, hash)
 		}
 	}
 
 	batch := t.ndb.db.NewBatch(true)
+	// every leaf stored with this height's prefix belongs to a commit that is being replaced: remove
+	// its index entry under its own hash (the lookup below goes through the root record, which a
+	// later state with the same content may have overwritten so that it leads to another leaf)
+	for i, k := range keys {
+		batch.Delete(genLeafCountKey(k, hashes[i], height, len(hashes[i])))
+	}
 	if t.root.height == 0 {
 		// a one-leaf tree: the leaf is the root and is stored without the height prefix,
 		// so the prefix scan above cannot find it
